@@ -955,6 +955,26 @@ func (e *Env) call(n ECall) TVal {
 			return e.errf("typeis: unknown type %s", s.V)
 		}
 		return TVal{T: Term{e.ex.typeTest(x.T, ty), SBool}}
+	case "dynptr":
+		// dynptr(x): the dynamic type of the interface value x is a pointer type (one of the pointer types boxed so far)
+		if !argc(1) {
+			return TVal{}
+		}
+		x := e.tr(n.Args[0])
+		if x.T.Sort != SAny {
+			return e.errf("dynptr of a non-interface value")
+		}
+		var alts []string
+		for _, key := range vc.sorts.anyOrder {
+			c := vc.sorts.anyCtors[key]
+			if _, ok := c.typ.Underlying().(*types.Pointer); ok {
+				alts = append(alts, app("(_ is "+c.name+")", x.T.S))
+			}
+		}
+		if len(alts) == 0 {
+			return TVal{T: Term{"false", SBool}}
+		}
+		return TVal{T: Term{or(alts...), SBool}}
 	case "as":
 		// as(x, "pkg.T"): payload of an interface value
 		if !argc(2) {
